@@ -73,6 +73,8 @@ def _obj_array(seq):
 def _wrap(r):
     if isinstance(r, np.ndarray):
         if r.dtype == object:
+            if r.size and all(isb(e) for e in r.flat):
+                return r.astype(bool)      # statically decided masks stay real boolean arrays
             return r.view(SymArray)
         return r
     return r
@@ -314,6 +316,8 @@ def _fix_index(idx):
         return np.array([int(e) for e in b.flat], dtype=int).reshape(b.shape)
     if isinstance(idx, SymBool):
         return bool(idx)
+    if isinstance(idx, np.ndarray) and idx.dtype == object:
+        return _fix_index(idx.view(SymArray))
     return idx
 
 
@@ -390,6 +394,12 @@ class SymArray(np.ndarray):
         a = self if axis is not None else self.ravel()
         return sym_ufunc(np.add, "accumulate", (a,), dict(axis=axis or 0))
 
+    def argsort(self, axis=-1, kind=None, order=None, **kw):
+        return HANDLED[np.argsort](self, axis=axis)
+
+    def argmax(self, axis=None, out=None, **kw):
+        return HANDLED[np.argmax](self, axis=axis)
+
     def mean(self, axis=None, dtype=None, out=None, keepdims=False, **kw):
         s = self.sum(axis=axis, keepdims=keepdims)
         n = self.size if axis is None else np.prod([self.shape[a] for a in (axis if isinstance(axis, tuple) else (axis,))])
@@ -433,7 +443,7 @@ STRUCTURAL = {
     np.concatenate, np.hstack, np.vstack, np.stack, np.block, np.broadcast_to, np.repeat,
     np.tile, np.take, np.reshape, np.transpose, np.ravel, np.squeeze, np.expand_dims,
     np.atleast_1d, np.atleast_2d, np.swapaxes, np.moveaxis, np.ix_, np.copy, np.shape,
-    np.ndim, np.size, np.apply_along_axis, np.convolve, np.correlate, np.flip, np.roll,
+    np.ndim, np.size, np.convolve, np.correlate, np.flip, np.roll,
     np.insert, np.delete, np.append, np.array_split, np.split, np.diagonal, np.broadcast_arrays,
     np.empty_like, np.full_like, np.column_stack, np.dstack, np.compress, np.may_share_memory,
     np.shares_memory, np.result_type, np.can_cast, np.iterable, np.putmask, np.copyto,
@@ -530,6 +540,36 @@ def _where(cond, *args):
         return np.where(concretize_mask(cond))
     a, b = args
     return _wrap(_WHERE3(_base(cond), _base(a), _base(b)))
+
+
+@implements(np.apply_along_axis)
+def _apply_along_axis(func1d, axis, arr, *args, **kwargs):
+    """numpy's version sizes its output buffer by the dtype of the FIRST result (a float NaN would make every later
+    symbolic result unstorable): collect all results first"""
+    arr = as_sym(arr)
+    nd = arr.ndim
+    axis = axis % nd
+    moved = np.moveaxis(arr.view(np.ndarray), axis, -1)
+    outer = moved.shape[:-1]
+    results = []
+    for ind in np.ndindex(outer):
+        results.append(func1d(moved[ind].view(SymArray), *args, **kwargs))
+    if not results:
+        raise ValueError("Cannot apply_along_axis when any iteration dimensions are 0")
+    r0 = results[0]
+    rshape = tuple(getattr(r0, "shape", ()))
+    out = np.empty(outer + rshape, dtype=object)
+    for ind, r in zip(np.ndindex(outer), results):
+        if rshape:
+            out[ind] = np.asarray(r, dtype=object) if not isinstance(r, np.ndarray) else r.view(np.ndarray)
+        else:
+            out[ind] = r if not isinstance(r, np.ndarray) else r[()]
+    # result dims go where `axis` was
+    if rshape:
+        src = list(range(len(outer), len(outer) + len(rshape)))
+        dst = list(range(axis, axis + len(rshape)))
+        out = np.moveaxis(out, src, dst)
+    return _wrap(out)
 
 
 @implements(np.argwhere)
